@@ -171,7 +171,25 @@ func (r *selRunner) run() []string {
 		return []string{"start-error"}
 	}
 
-	const timeout = 8 * time.Second
+	// watchdog: the client hangs when it produced neither a result nor a request for `timeout`
+	// (a healthy case issues its requests a few milliseconds apart)
+	const timeout = 1500 * time.Millisecond
+	idle := func() <-chan struct{} {
+		ch := make(chan struct{})
+		go func() {
+			for {
+				time.Sleep(50 * time.Millisecond)
+				sv.mu.Lock()
+				quiet := time.Since(sv.lastActivity)
+				sv.mu.Unlock()
+				if quiet > timeout {
+					close(ch)
+					return
+				}
+			}
+		}()
+		return ch
+	}
 	outcome := ""
 	got := false
 	select {
@@ -191,7 +209,7 @@ func (r *selRunner) run() []string {
 			select {
 			case err := <-cl.Wait():
 				outcome, got = selClassify(err), true
-			case <-time.After(timeout):
+			case <-idle():
 				outcome = "timeout"
 			}
 		} else {
@@ -203,7 +221,7 @@ func (r *selRunner) run() []string {
 				outcome = "pending"
 			}
 		}
-	case <-time.After(timeout):
+	case <-idle():
 		outcome = "timeout"
 	}
 	if strings.HasPrefix(outcome, "timeout") {
@@ -214,7 +232,7 @@ func (r *selRunner) run() []string {
 	if !got {
 		select {
 		case <-cl.Wait():
-		case <-time.After(timeout):
+		case <-time.After(2 * timeout):
 			outcome += "+stuck"
 		}
 	}
